@@ -23,7 +23,7 @@ package xpath
 //@ inv attributeQuery: self.Input != nil && self.Predicate != nil
 //@ inv childQuery: self.Input != nil && self.Predicate != nil
 //@ inv cachedChildQuery: self.Input != nil && self.Predicate != nil
-//@ inv descendantQuery: self.Input != nil && self.Predicate != nil
+//@ inv descendantQuery: self.Input != nil && self.Predicate != nil && self.level >= 0
 //@ inv followingQuery: self.Input != nil && self.Predicate != nil
 //@ inv precedingQuery: self.Input != nil && self.Predicate != nil
 //@ inv parentQuery: self.Input != nil && self.Predicate != nil
@@ -619,8 +619,23 @@ package xpath
 //@   props C15
 //@   captures c != nil && node != nil
 //@ func (*descendantQuery).Select$1
-//@   props C15
+//@   props C15 C12 C01
+//@   mode int
+//@   theory nav for C12 C01
+//@   uses tree-child tree-parent tree-depth
 //@   captures d != nil && node != nil
+//@   modifies heap(navpos), d.level, heap(C@*)
+//@   apply ancnStep(pos(node), d.level)
+//@   ensures[returns-cursor@C12,C01] result != nil ==> result == node
+//@   ensures[walk-root@C12,C01] result != nil ==> d.level >= 0 && ancn(pos(node), d.level) == old(ancn(pos(node), d.level))
+//@   ensures[doc-order@C12] result != nil && !old(first) ==> pre(pos(node)) > old(pre(pos(node)))
+//@   loop * apply ancnStep(pos(node), d.level)
+//@   loop * apply sibOrder(parent(pos(node)), idx(pos(node)) - 1)
+//@   apply sibOrder(parent(pos(node)), idx(pos(node)) - 1)
+//@   assume[walker-state] walkerOK(d.level, pos(node))     // d.level and node are private to this closure between its calls; re-established below
+//@   ensures[walker-state@C12,C01] walkerOK(d.level, pos(node))
+//@   loop 0 invariant[walk@C12,C01] walkerOK(d.level, pos(node)) && ancn(pos(node), d.level) == old(ancn(pos(node), d.level)) && pre(pos(node)) >= old(pre(pos(node))) && (old(first) || !first)
+//@   loop 1 invariant[climb@C12,C01] walkerOK(d.level, pos(node)) && ancn(pos(node), d.level) == old(ancn(pos(node), d.level)) && pre(pos(node)) + size(pos(node)) > old(pre(pos(node))) && !first
 //@ func (*followingQuery).Select$1
 //@   props C15
 //@   captures f != nil && node != nil
@@ -2107,3 +2122,14 @@ package xpath
 //@   ensures[integral@C09!] !isNaN(f) && !isInf(f) ==> floor(result) == result
 //@   ensures[not-above-half@C09!] !isNaN(f) && !isInf(f) ==> result - f <= 0.5
 //@   ensures[below-half@C09!] !isNaN(f) && !isInf(f) ==> f - result < 0.5
+
+// ---------------------------------------------------------------------------
+// The document tree behind the navigator (assumed: the client's NodeNavigator walks a finite
+// ordered tree). child(p, i) is the i-th child (1-based), idx its inverse, pre the pre-order
+// number, size the number of nodes of a subtree, depth the distance from the root.
+//@ axiom[tree-child] forall(p, Pos, forall(i, Int, 1 <= i && i <= nch(p) ==> parent(child(p, i)) == p && idx(child(p, i)) == i && !isroot(child(p, i)) && kind(child(p, i)) != 2 && depth(child(p, i)) == depth(p) + 1 && pre(child(p, i)) > pre(p) && pre(child(p, i)) + size(child(p, i)) <= pre(p) + size(p) && size(child(p, i)) >= 1, child(p, i)))
+//@ axiom[tree-parent] forall(p, Pos, kind(parent(p)) != 2 && (!isroot(p) && kind(p) != 2 ==> 1 <= idx(p) && idx(p) <= nch(parent(p)) && child(parent(p), idx(p)) == p), parent(p))
+//@ axiom[tree-depth] forall(p, Pos, 0 <= depth(p) && depth(p) < 1073741824 && size(p) >= 1 && nch(p) >= 0 && isroot(p) == (depth(p) == 0), depth(p))
+//@ define walkerOK(level, p) = 0 <= level && level <= depth(p) && (level > 0 ==> kind(p) != 2 && !isroot(p))
+//@ instance sibOrder(q, i) = 1 <= i && i < nch(q) ==> pre(child(q, i + 1)) == pre(child(q, i)) + size(child(q, i))
+//@ instance ancnStep(p, n) = (n == 0 ==> ancn(p, n) == p) && (n > 0 ==> ancn(p, n) == ancn(parent(p), n - 1))
